@@ -98,6 +98,30 @@ theorem merge_max_ge_right (t s : Attr) : s.max ≤ (mergeAttributes t s).max :=
   refine Nat.le_trans ?_ (Nat.le_max_right _ _)
   split <;> omega
 
+/-- `m` is at least as permissive as `a`: wider bounds, and it keeps an interleaving marker -/
+def Wider (m a : Attr) : Prop := m.min ≤ a.min ∧ a.max ≤ m.max ∧ (a.seq.isSome = true → m.seq.isSome = true)
+
+theorem Wider.refl (a : Attr) : Wider a a := ⟨Nat.le_refl _, Nat.le_refl _, id⟩
+
+theorem Wider.trans {a b c : Attr} (h1 : Wider a b) (h2 : Wider b c) : Wider a c :=
+  ⟨Nat.le_trans h1.1 h2.1, Nat.le_trans h2.2.1 h1.2.1, fun h => h1.2.2 (h2.2.2 h)⟩
+
+theorem merge_wider_left (t s : Attr) : Wider (mergeAttributes t s) t := by
+  refine ⟨merge_min_le_left t s, merge_max_ge_left t s, ?_⟩
+  intro h
+  simp only [mergeAttributes]
+  cases ht : t.seq with
+  | none => simp [ht] at h
+  | some q => simp
+
+theorem merge_wider_right (t s : Attr) : Wider (mergeAttributes t s) s := by
+  refine ⟨merge_min_le_right t s, merge_max_ge_right t s, ?_⟩
+  intro h
+  simp only [mergeAttributes]
+  cases ht : t.seq with
+  | none => simpa using h
+  | some q => simp
+
 theorem nodupKeys_unique {l : List Attr} (h : NodupKeys l) {a b : Attr} (ha : a ∈ l) (hb : b ∈ l)
     (hs : a.same b = true) : a = b := by
   induction l with
@@ -113,7 +137,7 @@ theorem nodupKeys_unique {l : List Attr} (h : NodupKeys l) {a b : Attr} (ha : a 
 
 /-- `m` has `k`'s key and its bounds contain those of every `k`-attr of the classes -/
 def Covers (k m : Attr) (cs : List (List Attr)) : Prop :=
-  m.same k = true ∧ ∀ c ∈ cs, ∀ a ∈ c, a.same k = true → m.min ≤ a.min ∧ a.max ≤ m.max
+  m.same k = true ∧ ∀ c ∈ cs, ∀ a ∈ c, a.same k = true → Wider m a
 
 /-- what the inner loop of `reduce_attributes` does for one key -/
 theorem reduceOne_spec (k : Attr) (cs : List (List Attr)) (hn : ∀ c ∈ cs, NodupKeys c) :
@@ -123,14 +147,14 @@ theorem reduceOne_spec (k : Attr) (cs : List (List Attr)) (hn : ∀ c ∈ cs, No
         (added = false →
           (cs.all (lacks k) = true ∧ R' = R) ∨ (cs.all (lacks k) = false ∧ ∃ m, R' = R ++ [m] ∧ Covers k m cs)) ∧
         (added = true → ∀ R0 m0, R = R0 ++ [m0] → m0.same k = true →
-          ∃ m, R' = R0 ++ [m] ∧ m.min ≤ m0.min ∧ m0.max ≤ m.max ∧ Covers k m cs) := by
+          ∃ m, R' = R0 ++ [m] ∧ Wider m m0 ∧ Covers k m cs) := by
   induction cs with
   | nil =>
     intro done R added opt
     refine ⟨R, by simp [reduceOne], ?_, ?_⟩
     · intro _; left; simp
     · intro _ R0 m0 hR hm
-      exact ⟨m0, hR, Nat.le_refl _, Nat.le_refl _, hm, by simp⟩
+      exact ⟨m0, hR, Wider.refl _, hm, by simp⟩
   | cons obj rest ih =>
     intro done R added opt
     have hobj : NodupKeys obj := hn obj (by simp)
@@ -156,8 +180,8 @@ theorem reduceOne_spec (k : Attr) (cs : List (List Attr)) (hn : ∀ c ∈ cs, No
           · simp [hl a ha'] at hs
           · exact hc.2 c hc' a ha' hs
       · intro ha R0 m0 hR hm
-        obtain ⟨m, hR', hmin, hmax, hc⟩ := h3 ha R0 m0 hR hm
-        refine ⟨m, hR', hmin, hmax, hc.1, ?_⟩
+        obtain ⟨m, hR', hw, hc⟩ := h3 ha R0 m0 hR hm
+        refine ⟨m, hR', hw, hc.1, ?_⟩
         intro c hc' a ha' hs
         simp only [List.mem_cons] at hc'
         rcases hc' with rfl | hc'
@@ -174,7 +198,7 @@ theorem reduceOne_spec (k : Attr) (cs : List (List Attr)) (hn : ∀ c ∈ cs, No
       cases added with
       | false =>
         obtain ⟨R', h1, _, h3⟩ := ih hrest (strip k obj :: done) (R ++ [found]) true opt
-        obtain ⟨m, hR', hmin, hmax, hc⟩ := h3 rfl R found rfl hsame
+        obtain ⟨m, hR', hw, hc⟩ := h3 rfl R found rfl hsame
         refine ⟨R', ?_, ?_, ?_⟩
         · simp [reduceOne, hf, hget, h1, hpop, hnl]
         · intro _
@@ -183,7 +207,7 @@ theorem reduceOne_spec (k : Attr) (cs : List (List Attr)) (hn : ∀ c ∈ cs, No
           intro c hc' a ha' hs
           simp only [List.mem_cons] at hc'
           rcases hc' with rfl | hc'
-          · rw [honly a ha' hs]; exact ⟨hmin, hmax⟩
+          · rw [honly a ha' hs]; exact hw
           · exact hc.2 c hc' a ha' hs
         · intro h; cases h
       | true =>
@@ -205,13 +229,13 @@ theorem reduceOne_spec (k : Attr) (cs : List (List Attr)) (hn : ∀ c ∈ cs, No
             have hl' : l = m0 := by simp [hR] at hl; exact hl.symm
             subst hl'
             have hdl : R.dropLast = R0 := by simp [hR]
-            obtain ⟨m, hR', hmin, hmax, hc⟩ := h3 rfl R0 (mergeAttributes l found) (by rw [hdl]) (by rw [merge_same]; exact hm)
-            refine ⟨m, hR', Nat.le_trans hmin (merge_min_le_left _ _), Nat.le_trans (merge_max_ge_left _ _) hmax, hc.1, ?_⟩
+            obtain ⟨m, hR', hw, hc⟩ := h3 rfl R0 (mergeAttributes l found) (by rw [hdl]) (by rw [merge_same]; exact hm)
+            refine ⟨m, hR', hw.trans (merge_wider_left _ _), hc.1, ?_⟩
             intro c hc' a ha' hs
             simp only [List.mem_cons] at hc'
             rcases hc' with rfl | hc'
             · rw [honly a ha' hs]
-              exact ⟨Nat.le_trans hmin (merge_min_le_right _ _), Nat.le_trans (merge_max_ge_right _ _) hmax⟩
+              exact hw.trans (merge_wider_right _ _)
             · exact hc.2 c hc' a ha' hs
 
 
@@ -412,7 +436,7 @@ theorem rem_nil (c : List Attr) : rem [] c = c := by simp [rem]
 def Inv (cs0 : List (List Attr)) (P : List Attr) (st : Option RState) : Prop :=
   ∃ R, st = some ⟨cs0.map (rem P), R⟩ ∧
     (∀ m ∈ R, ∃ p ∈ P, m.same p = true) ∧
-    (∀ p ∈ P, ∀ c ∈ cs0, ∀ a ∈ c, a.same p = true → ∀ m ∈ R, m.same p = true → m.min ≤ a.min ∧ a.max ≤ m.max) ∧
+    (∀ p ∈ P, ∀ c ∈ cs0, ∀ a ∈ c, a.same p = true → ∀ m ∈ R, m.same p = true → Wider m a) ∧
     (∀ p ∈ P, (∃ c ∈ cs0, ∃ a ∈ c, a.same p = true) → ∃ m ∈ R, m.same p = true) ∧
     (∀ p ∈ P, ∀ c ∈ cs0, lacks p c = true → ∀ m ∈ R, m.same p = true → m.min = 0)
 
@@ -464,7 +488,7 @@ theorem reduceStep_inv (cs0 : List (List Attr)) (P : List Attr) (st : Option RSt
   rcases h2 rfl with ⟨h, _⟩ | ⟨_, m, hR', hcov⟩
   · rw [hall] at h; cases h
   -- the element appended for `k`, after the `optional` adjustment
-  have hcov' : ∀ c ∈ cs0, ∀ a ∈ c, a.same k = true → m.min ≤ a.min ∧ a.max ≤ m.max := by
+  have hcov' : ∀ c ∈ cs0, ∀ a ∈ c, a.same k = true → Wider m a := by
     intro c hc a ha hs
     exact hcov.2 (rem P c) (by simp only [List.mem_map]; exact ⟨c, hc, rfl⟩) a ((mem_rem_same hk hs).2 ha) hs
   have hany : ∀ c ∈ cs0, lacks k c = true → (cs0.map (rem P)).any (lacks k) = true := by
@@ -472,18 +496,18 @@ theorem reduceStep_inv (cs0 : List (List Attr)) (P : List Attr) (st : Option RSt
     simp only [List.any_eq_true, List.mem_map]
     exact ⟨rem P c, ⟨c, hc, rfl⟩, by rw [lacks_rem hk]; exact hl⟩
   have hfinal : ∃ m', reduceStep (some ⟨cs0.map (rem P), R⟩) k = some ⟨cs0.map (rem (P ++ [k])), R ++ [m']⟩ ∧
-      m'.same k = true ∧ m'.min ≤ m.min ∧ m'.max = m.max ∧
+      m'.same k = true ∧ Wider m' m ∧
       ((cs0.map (rem P)).any (lacks k) = true → m'.min = 0) := by
     have hcls : (cs0.map (rem P)).map (strip k) = cs0.map (rem (P ++ [k])) := by
       simp [List.map_map, Function.comp_def, rem_snoc]
     cases hopt : (cs0.map (rem P)).any (lacks k) with
     | true =>
-      refine ⟨{ m with min := 0 }, ?_, by simpa [Attr.same] using hcov.1, by simp, rfl, fun _ => rfl⟩
+      refine ⟨{ m with min := 0 }, ?_, by simpa [Attr.same] using hcov.1, ⟨by simp, Nat.le_refl _, id⟩, fun _ => rfl⟩
       simp [reduceStep, heq, hopt, hR', hcls]
     | false =>
-      refine ⟨m, ?_, hcov.1, Nat.le_refl _, rfl, fun h => by cases h⟩
+      refine ⟨m, ?_, hcov.1, Wider.refl _, fun h => by cases h⟩
       simp [reduceStep, heq, hopt, hR', hcls]
-  obtain ⟨m', hst, hmk, hmin, hmax, hopt⟩ := hfinal
+  obtain ⟨m', hst, hmk, hwide, hopt⟩ := hfinal
   have hnotP : ∀ p ∈ P, m'.same p = false := by
     intro p hp
     cases h : m'.same p
@@ -512,8 +536,7 @@ theorem reduceStep_inv (cs0 : List (List Attr)) (P : List Attr) (st : Option RSt
       · simp [hnotP p hp] at hms
     · rcases hm1 with hm1 | rfl
       · simp [holdk m1 hm1] at hms
-      · have := hcov' c hc a ha hs
-        exact ⟨Nat.le_trans hmin this.1, by rw [hmax]; exact this.2⟩
+      · exact hwide.trans (hcov' c hc a ha hs)
   · intro p hp hex'
     simp only [List.mem_append, List.mem_singleton] at hp
     rcases hp with hp | rfl
@@ -580,7 +603,7 @@ theorem reduceAttributes_admits (cs : List (List Attr)) (hn : ∀ c ∈ cs, Nodu
       have hm1 := List.mem_of_find?_eq_some hf
       have hs1 : m1.same a = true := by simpa using List.find?_some hf
       have := J2a y hy occ hocc' a ha (same_symm hys) m1 hm1 (same_trans hs1 (same_symm hys))
-      simp [Attr.within, this.1, this.2]
+      simp [Attr.within, this.1, this.2.1]
   · intro m hm
     obtain ⟨p, hp, hs⟩ := J1 m hm
     cases hl : lacks p occ with
@@ -592,6 +615,34 @@ theorem reduceAttributes_admits (cs : List (List Attr)) (hn : ∀ c ∈ cs, Nodu
         exact ⟨a, ha, same_trans has (same_symm hs)⟩
       simp [this]
 
+
+/-- every attr of every class is dominated by the merged attr of its key: wider bounds, and an
+interleaving marker is never lost -/
+theorem reduceAttributes_wider (cs : List (List Attr)) (hn : ∀ c ∈ cs, NodupKeys c) (R : List Attr)
+    (hR : reduceAttributes cs = some R) :
+    ∀ occ ∈ cs, ∀ a ∈ occ, ∀ m ∈ R, m.same a = true → Wider m a := by
+  have hn' : ∀ c ∈ sortByLenDesc cs, NodupKeys c := fun c hc => hn c ((mem_sortByLenDesc cs c).1 hc)
+  obtain ⟨s1, s2, s3⟩ := sortedAttrs_spec (sortByLenDesc cs) hn'
+  have h0 : Inv (sortByLenDesc cs) [] (some ⟨sortByLenDesc cs, []⟩) := by
+    refine ⟨[], ?_, by simp, by simp, by simp, by simp⟩
+    have : (sortByLenDesc cs).map (rem []) = sortByLenDesc cs := by
+      rw [List.map_congr_left (g := id) (fun c _ => rem_nil c)]; simp
+    rw [this]
+  have hex : ∀ k ∈ sortedAttrs (sortByLenDesc cs), ∃ c ∈ sortByLenDesc cs, ∃ a ∈ c, a.same k = true := by
+    intro k hk
+    obtain ⟨c, hc, hkc⟩ := s2 k hk
+    exact ⟨c, hc, k, hkc, same_refl k⟩
+  obtain ⟨R', hst, _, J2a, _, _⟩ :=
+    reduceFold_inv (sortByLenDesc cs) hn' (sortedAttrs (sortByLenDesc cs)) [] _ h0 (by simpa using s1) hex
+  simp only [List.nil_append] at hst J2a
+  have : R' = R := by
+    simp only [reduceAttributes, hst, Option.map_some, Option.some.injEq] at hR
+    exact hR
+  subst this
+  intro occ hocc a ha m hm hs
+  have hocc' : occ ∈ sortByLenDesc cs := (mem_sortByLenDesc cs occ).2 hocc
+  obtain ⟨y, hy, hys⟩ := s3 occ hocc' a ha
+  exact J2a y hy occ hocc' a ha (same_symm hys) m hm (same_trans hs (same_symm hys))
 
 /-! ### where a merged attr comes from: its key and its sequence marker are those of some input attr -/
 
@@ -611,14 +662,15 @@ theorem mem_popAt {l : List Attr} {pos : Nat} {a : Attr} (h : a ∈ popAt l pos)
 theorem reduceOne_origin (cs0 : List (List Attr)) (k : Attr) (cs : List (List Attr)) :
     ∀ (done : List (List Attr)) (R : List Attr) (added opt : Bool),
       FromOrig cs0 cs → FromOrig cs0 done → (∀ m ∈ R, Origin cs0 m) →
+      (added = true → ∀ l, R.getLast? = some l → l.same k = true) →
       FromOrig cs0 (reduceOne k cs done R added opt).1 ∧ ∀ m ∈ (reduceOne k cs done R added opt).2.1, Origin cs0 m := by
   induction cs with
   | nil =>
-    intro done R added opt _ hd hR
+    intro done R added opt _ hd hR _
     simp only [reduceOne]
     exact ⟨fun c hc => hd c (by simpa using hc), hR⟩
   | cons obj rest ih =>
-    intro done R added opt hcs hd hR
+    intro done R added opt hcs hd hR hlast
     have hrest : FromOrig cs0 rest := fun c hc => hcs c (by simp [hc])
     have hobj : ∀ a ∈ obj, ∃ c0 ∈ cs0, a ∈ c0 := hcs obj (by simp)
     have hdone : FromOrig cs0 (obj :: done) := by
@@ -628,12 +680,15 @@ theorem reduceOne_origin (cs0 : List (List Attr)) (k : Attr) (cs : List (List At
       · exact hd c hc
     simp only [reduceOne]
     cases hf : findAttr obj k with
-    | none => exact ih _ _ _ _ hrest hdone hR
+    | none => exact ih _ _ _ _ hrest hdone hR hlast
     | some pos =>
       simp only
       cases hg : obj[pos]? with
-      | none => exact ih _ _ _ _ hrest hdone hR
+      | none => exact ih _ _ _ _ hrest hdone hR hlast
       | some found =>
+        have hfk : found.same k = true := by
+          obtain ⟨f', hg', hs', _, _⟩ := findAttr_some hf
+          rw [hg] at hg'; cases hg'; exact hs'
         have hfm : found ∈ obj := List.mem_of_getElem? hg
         have hpop : FromOrig cs0 (popAt obj pos :: done) := by
           intro c hc; simp only [List.mem_cons] at hc
@@ -647,32 +702,45 @@ theorem reduceOne_origin (cs0 : List (List Attr)) (k : Attr) (cs : List (List At
         cases added with
         | false =>
           simp only [Bool.not_false, if_true]
-          apply ih _ _ _ _ hrest hpop
-          intro m hm
-          simp only [List.mem_append, List.mem_singleton] at hm
-          rcases hm with hm | rfl
-          · exact hR m hm
-          · exact hfo
-        | true =>
-          simp only [Bool.not_true, Bool.false_eq_true, if_false]
-          apply ih _ _ _ _ hrest hpop
-          cases hl : R.getLast? with
-          | none => simpa using hR
-          | some l =>
-            intro m hm
+          refine ih _ _ _ _ hrest hpop ?_ ?_
+          · intro m hm
             simp only [List.mem_append, List.mem_singleton] at hm
             rcases hm with hm | rfl
-            · exact hR m (List.dropLast_subset _ hm)
-            · obtain ⟨c, hc, a, ha, hs, hq⟩ := hR l (List.mem_of_getLast? hl)
-              refine ⟨c, hc, a, ha, ?_, ?_⟩
-              · rw [same_comm, merge_same, same_comm]; exact hs
-              · simpa [mergeAttributes] using hq
+            · exact hR m hm
+            · exact hfo
+          · intro _ l hl
+            simp at hl; subst hl; exact hfk
+        | true =>
+          simp only [Bool.not_true, Bool.false_eq_true, if_false]
+          cases hl : R.getLast? with
+          | none => exact ih _ _ _ _ hrest hpop (by simpa using hR) (by simpa [hl] using hlast rfl)
+          | some l =>
+            have hlk : l.same k = true := hlast rfl l hl
+            refine ih _ _ _ _ hrest hpop ?_ ?_
+            · intro m hm
+              simp only [List.mem_append, List.mem_singleton] at hm
+              rcases hm with hm | rfl
+              · exact hR m (List.dropLast_subset _ hm)
+              · cases hls : l.seq with
+                | some q =>
+                  obtain ⟨c, hc, a, ha, hs, hq⟩ := hR l (List.mem_of_getLast? hl)
+                  refine ⟨c, hc, a, ha, ?_, ?_⟩
+                  · rw [same_comm, merge_same, same_comm]; exact hs
+                  · simpa [mergeAttributes, hls] using hq
+                | none =>
+                  obtain ⟨c0, hc0, hmem⟩ := hobj found hfm
+                  refine ⟨c0, hc0, found, hmem, ?_, ?_⟩
+                  · rw [same_comm, merge_same]; exact same_trans hlk (same_symm hfk)
+                  · simp [mergeAttributes, hls]
+            · intro _ l' hl'
+              simp at hl'; subst hl'; rw [merge_same]; exact hlk
 
 theorem reduceStep_origin (cs0 : List (List Attr)) (st : RState) (k : Attr)
     (h1 : FromOrig cs0 st.classes) (h2 : ∀ m ∈ st.result, Origin cs0 m) :
     ∀ st', reduceStep (some st) k = some st' → FromOrig cs0 st'.classes ∧ ∀ m ∈ st'.result, Origin cs0 m := by
   intro st' hst
   have ho := reduceOne_origin cs0 k st.classes [] st.result false false h1 (by intro c hc; simp at hc) h2
+    (by intro h; cases h)
   simp only [reduceStep] at hst
   generalize reduceOne k st.classes [] st.result false false = r at ho hst
   obtain ⟨cs, result, optional⟩ := r
